@@ -129,7 +129,7 @@ def to_dcase(cmd, kind, opt, stdin_lines, typed, seed, case_script, obs, unlock_
         script += list(case_script[len(obs["answers"]):])
     ua = unlock_args or {}
     cmd_t = {"unlock": "(AUnlock %s %s)" % (c_bool(ua.get("exit", True)), c_bool(ua.get("no_exec", False))),
-             "onboard": "AOnboard", "changepin": "AChangepin", "pubkeys": "APubkeys"}[cmd]
+             "onboard": "AOnboard", "onboard+unlock": "AOnboardUnlock", "changepin": "AChangepin", "pubkeys": "APubkeys"}[cmd]
     return "(mkDcase %s %s %s %s %s %s [] %s %s %s %s)" % (
         cmd_t, stack.KINDS[kind], c_opts(opt), c_list(c_str(x) for x in stdin_lines),
         c_list(c_bytes(t) for t in typed), c_bytes(seed), c_list(c_resp(i) for i in script),
